@@ -108,6 +108,71 @@ func c04EmptyPathRoot(c *Ctx) {
 	}
 }
 
+// c04NonStringRefs: documents that are only decoded DURING the expansion (fetched by the loader, or supplied as
+// generic JSON) in which a "$ref" member holds something that is no string - null from a serializer, a number, an
+// object, an array. Such a member is no reference; whatever the expansion makes of it, it returns.
+func c04NonStringRefs(c *Ctx) {
+	bads := []string{`null`, `42`, `{}`, `[]`, `true`, `{"$ref":"#/definitions/ok"}`}
+	for bi, bad := range bads {
+		for _, where := range []string{"top", "property", "items", "allOf", "param-schema", "response-schema"} {
+			var def string
+			switch where {
+			case "top":
+				def = `{"$ref":` + bad + `,"type":"string"}`
+			case "property":
+				def = `{"type":"object","properties":{"p":{"$ref":` + bad + `},"q":{"$ref":"#/definitions/ok"}}}`
+			case "items":
+				def = `{"type":"array","items":{"$ref":` + bad + `}}`
+			case "allOf":
+				def = `{"allOf":[{"$ref":"#/definitions/ok"},{"$ref":` + bad + `}]}`
+			default:
+				def = `{"type":"object","additionalProperties":{"$ref":` + bad + `}}`
+			}
+			root := "file:///c04/ns/root.json"
+			other := "file:///c04/ns/other.json"
+			otherDoc := `{"definitions":{"ok":{"type":"integer"},"bad":` + def + `},"parameters":{"bp":{"name":"b","in":"body","schema":` + def + `}},"responses":{"br":{"description":"d","schema":` + def + `}}}`
+			w := &refgraph.World{Root: root, Docs: map[string]wire.V{
+				root: wire.MustParse(`{"swagger":"2.0","info":{"title":"t","version":"1"},"paths":{"/a":{"get":{"parameters":[{"$ref":"other.json#/parameters/bp"}],"responses":{"200":{"$ref":"other.json#/responses/br"}}}}},"definitions":{"top":{"type":"object","properties":{"t":{"$ref":"other.json#/definitions/bad"}}}}}`),
+				other: wire.MustParse(otherDoc)}}
+			for oi := 0; oi < 4; oi++ {
+				o := expOpts{Continue: oi&1 == 1, Absolute: oi&2 == 2}
+				res := expandWorld(w, o)
+				c.Count(fmt.Sprint("non-string-ref", bi, where, o.String()), true)
+				c.Hit("non-string-ref")
+				if res.Panic != "" || res.Hang {
+					cs := map[string]interface{}{"world": worldJSON(w), "options": o.String(), "entry": "ExpandSpec"}
+					c.Fail(Failure{Kind: "crash", Sig: "C04:panic", What: "ExpandSpec panicked or hung on a fetched document whose \"$ref\" member is no string: " + res.Panic, Case: cs})
+				}
+				call := entryCall{Entry: "schemaWithBase", Path: []string{"definitions", "top"}, Cont: o.Continue, Abs: o.Absolute}
+				if r := runEntry(w, call, nil, loaderFor(w, nil, nil)); r.Panic != "" || r.Hang {
+					cs := map[string]interface{}{"world": worldJSON(w), "call": call}
+					c.Fail(Failure{Kind: "crash", Sig: "C04:panic", What: "ExpandSchemaWithBasePath panicked or hung on a fetched document whose \"$ref\" member is no string: " + r.Panic, Case: cs})
+				}
+			}
+			// the same definitions in a root supplied as generic JSON
+			var generic interface{}
+			if json.Unmarshal([]byte(otherDoc), &generic) != nil {
+				continue
+			}
+			var err error
+			pan, hang := timed(20*time.Second, func() {
+				sch := spec.RefSchema("#/definitions/bad")
+				err = spec.ExpandSchema(sch, generic, nil)
+				resp := spec.ResponseRef("#/responses/br")
+				err = spec.ExpandResponseWithRoot(resp, generic, nil)
+				par := spec.ParamRef("#/parameters/bp")
+				err = spec.ExpandParameterWithRoot(par, generic, nil)
+			})
+			_ = err
+			c.Hit("non-string-ref-generic-root")
+			if pan != "" || hang {
+				cs := map[string]interface{}{"root": json.RawMessage(otherDoc), "entry": "ExpandSchema / ExpandResponseWithRoot / ExpandParameterWithRoot with the root as generic JSON"}
+				c.Fail(Failure{Kind: "crash", Sig: "C04:panic", What: "expansion against a generic root whose \"$ref\" member is no string panicked or hung: " + pan, Case: cs})
+			}
+		}
+	}
+}
+
 // c04RootForms: the root-based entry points called several times in a row with ONE cache, the root supplied in each
 // of its forms - typed document, generic JSON (a map, which Go cannot compare), the schema itself, nil: a result or
 // an error, never a panic, on every call of the sequence.
@@ -190,6 +255,7 @@ func runC04(c *Ctx) {
 	c08ContainerProbes(c)
 	c04RootForms(c)
 	c04EmptyPathRoot(c)
+	c04NonStringRefs(c)
 	var jobs []childJob
 	defer func() { runChildJobs(c, jobs) }()
 	for i := 0; i < n; i++ {
